@@ -214,7 +214,7 @@ func asyncRecoveryFamily(r *vx.Rand, rounds int) {
 	for i := 0; i < rounds; i++ {
 		for _, missingFirst := range []bool{true, false} {
 			for _, conflict := range []bool{false, true} {
-				asyncRecoveryScenario(missingFirst, conflict, i*2+r.Intn(2), r.Fork())
+				timed("async-recovery", func() { asyncRecoveryScenario(missingFirst, conflict, i*2+r.Intn(2), r.Fork()) })
 				rec.Count("c02:family:async-recovery")
 			}
 		}
@@ -317,11 +317,15 @@ func slowOwnerScenario(r *vx.Rand) {
 	sd := &side{f: hf, done: done}
 	// once the owner goes on, time goes on for the foreign client too (its oracle is refreshed by timestamp fetches): a
 	// client waiting for a lock that is 20 ms from its ttl would otherwise retry thousands of times on a frozen clock
+	stop := make(chan struct{})
+	defer close(stop)
 	go func() {
 		defer func() { recover() }()
 		for {
 			select {
 			case <-done:
+				return
+			case <-stop:
 				return
 			default:
 			}
@@ -347,4 +351,13 @@ func slowOwnerScenario(r *vx.Rand) {
 		who = nil
 	}
 	recoverWith(w, who, s.keys, r, r.Intn(8), a)
+}
+
+// timed runs a scenario and counts it as slow when it took more than a second (a wait that ran into its time limit).
+func timed(family string, f func()) {
+	t0 := time.Now()
+	f()
+	if time.Since(t0) > time.Second {
+		rec.Count("slow-scenario:" + family)
+	}
 }
